@@ -21,6 +21,8 @@ type Runner struct {
 	Twice bool // recover every image twice (C04 idempotence)
 	// ReadBack after every mutating call.
 	ReadEvery bool
+	// Alt alternates fs.OS and fs.OSMMap between sessions.
+	Alt bool
 	// Probe replaces the full read-back after every write by Count + Get of the written key.
 	Probe     bool
 	FullEvery int
@@ -64,6 +66,7 @@ func NewRunner(rec *Rec, p *Program, rp RunParams) *Runner {
 		cfg.FS = "crashfs"
 		r.FS = crashfs.New()
 		r.S = NewSess(rec, cfg, r.FS, r.Dir, p.ID, Ev{"prog": p, "run": rp})
+		r.S.AfterInjected = r.afterInjected
 		if mode != "seq" {
 			r.FS.Hook = r.hook
 		}
@@ -80,8 +83,9 @@ func NewRunnerOn(rec *Rec, p *Program, dir string, rp RunParams) *Runner {
 	}
 	rp.Mode = "seq"
 	r := &Runner{Mode: "seq", Rng: rand.New(rand.NewSource(rp.Seed)), Dir: dir, seen: map[[3]uint64]bool{},
-		ReadEvery: true, Probe: rp.Probe, FullEvery: rp.FullEvery}
+		ReadEvery: true, Probe: rp.Probe, FullEvery: rp.FullEvery, Alt: rp.Alt}
 	r.S = NewSess(rec, p.Cfg, RootFS(p.Cfg.FS), dir, p.ID, Ev{"prog": p, "run": rp})
+	r.S.AfterInjected = r.afterInjected
 	return r
 }
 
@@ -292,6 +296,15 @@ func (r *Runner) examine(cont crashfs.Content, lossy bool, depth int) {
 	r.S.R.Emit(Ev{"e": "restore"})
 }
 
+// afterInjected runs after an operation injected at a yield point of Compact / Backup.
+func (r *Runner) afterInjected(o Op) {
+	r.between()
+	if r.ReadEvery && (o.Op == "put" || o.Op == "del") {
+		r.S.Do(Op{Op: "count", T: o.T})
+		r.S.Do(Op{Op: "get", K: o.K, KL: o.KL, T: o.T})
+	}
+}
+
 // between examines the instant between two calls (after an operation has returned).
 func (r *Runner) between() {
 	if r.Mode == "seq" || r.FS == nil {
@@ -347,12 +360,19 @@ func (r *Runner) step(o Op) (died bool, err error) {
 		}
 		r.closedWin = true
 		r.between()
+		if r.Alt && (r.S.Cfg.FS == "os" || r.S.Cfg.FS == "osmmap") {
+			if r.S.Cfg.FS == "os" {
+				r.S.Cfg.FS = "osmmap"
+			} else {
+				r.S.Cfg.FS = "os"
+			}
+			r.S.Root = RootFS(r.S.Cfg.FS)
+			r.S.R.Emit(Ev{"e": "note", "what": "next session on fs=" + r.S.Cfg.FS})
+		}
 		err = r.S.Open()
 		r.closedWin = false
 	case "open":
 		err = r.S.Open()
-	case "readall":
-		r.S.ReadAll()
 	default:
 		err = r.S.Do(o)
 	}
